@@ -110,6 +110,19 @@ def enumNext (spec : Bool) (args : List String) (out : IO.FS.Stream) : IO Unit :
       let r := if spec ∧ 0 ≤ tot then s!"{tot / 24} {tot % 24} {b01 (tot % 24 % 2 == 1)} {b01 (tot % 24 % 2 == 0)}"
                else s!"{t.1} {t.2} {b01 (isJie t)} {b01 (isQi t)}"
       out.putStrLn s!"new {y} {idx} {r}"
+  -- the instant of a term constructed with a wrapped index: model = table entry of the normalised term; spec = the table
+  -- entry at the global position 24(y−1)+idx (floor arithmetic)
+  forRange 2 9998 fun y => do
+    if y % 50 == 0 || y ≤ 30 || y ≥ 9990 || (1570 ≤ y && y ≤ 1600) then
+      let mut buf := ""
+      for idx in ([-49, -25, -24, -13, -12, -11, -1, 24, 25, 35, 36, 47, 48] : List Int) do
+        let g : Int := if spec then 24 * (y - 1) + idx else gidx (fromIndex y idx)
+        let r : String :=
+          if g < 0 ∨ g ≥ 240000 then REFUSED else
+          let td := E.termDay g.toNat
+          if td = 0 then REFUSED else s!"{fmt3 (ofJdn td)} {E.termSod g.toNat}"
+        buf := buf ++ s!"wday {y} {idx} {r}\n"
+      out.putStr buf
 
 /-- S stream: the spacing clause holds for every representable adjacent pair -/
 def enumIncSpec (out : IO.FS.Stream) : IO Unit := do
